@@ -70,8 +70,16 @@ def d1_deletion_guarded(ctx):
             cfg = du.cfg
             cn = cfg.node_for(c)
             gs = _guards(cfg, cn)
-            has_check = any(loc_name(t) == "self.check_completed" and pol for t, pol in gs)
             has_opt = any(loc_name(t) == "self.delete_original" and pol for t, pol in gs)
+            # the verification guard: whatever instance state (other than the option) the path condition of the unlink requires
+            from sa import guards as GD
+            at_ = GD.Atoms()
+            pc_ = GD.path_condition(cfg, cn, at_)
+            state_atoms = [k for k in GD.atoms_of(pc_) if "self." in k and "delete_original" not in k and "ap_file" not in k and "self.sr" not in k]
+            state_attrs = sorted({n_.attr for k in state_atoms for n_ in ast.walk(at_.exprs[k]) if isinstance(n_, ast.Attribute) and isinstance(n_.value, ast.Name) and n_.value.id == "self"})
+            has_check = bool(state_atoms)
+            if has_check:
+                ctx.shared.setdefault("completion_guards", []).append((fi, c, pc_, at_, state_atoms, state_attrs))
             # alternative: dominated by self.sr.compress_file() (lossless, published) and self.sr.close()
             comp = [x for x in resolved_calls(repo, fi, "spikeglx.Reader.compress_file") if chain_root(receiver(x))[0] == "self.sr"]
             clos = [x for x in find(fi.node, ast.Call, nested=False) if call_name(x) == "close" and receiver(x) is not None
@@ -91,47 +99,136 @@ def d1_deletion_guarded(ctx):
         ctx.note("no unlink of self.ap_file found in NP2Converter: nothing can delete the original (D1 vacuous by safety)")
 
 
+def _abs_value(v):
+    """Abstract value of an expression assigned to the verification state: NONE | FALSE | TRUE | EMPTY | NONEMPTY | UNKNOWN."""
+    if isinstance(v, ast.Constant):
+        if v.value is None:
+            return "NONE"
+        if v.value is False:
+            return "FALSE"
+        if v.value is True:
+            return "TRUE"
+        return "NONEMPTY" if v.value else "EMPTY"
+    if isinstance(v, (ast.Set, ast.List, ast.Tuple, ast.Dict)):
+        n = len(v.elts) if not isinstance(v, ast.Dict) else len(v.keys)
+        return "NONEMPTY" if n else "EMPTY"
+    if isinstance(v, ast.Call) and call_name(v) in ("set", "list", "dict", "tuple", "frozenset"):
+        if not v.args and not v.keywords:
+            return "EMPTY"
+        if v.args and "shank_info" in src(v.args[0]):
+            return "NONEMPTY"    # one entry per shank being written: never empty while a conversion is running
+        return "UNKNOWN"
+    return "UNKNOWN"
+
+
+def _eval_guard(pc, at_, state_atoms, attr, absval):
+    """Truth of the deletion guard's state part when self.<attr> has the abstract value: True / False / None (unknown)."""
+    from sa import guards as GD
+    val = {}
+    for k in GD.atoms_of(pc):
+        e = at_.exprs[k]
+        if k not in state_atoms:
+            val[k] = True       # the option (delete_original) and unrelated conditions: assume they allow the deletion
+            continue
+        t = None
+        if isinstance(e, ast.Compare) and len(e.ops) == 1 and isinstance(e.ops[0], ast.Eq):
+            sides = [e.left, e.comparators[0]]
+            if any(isinstance(x, ast.Constant) and x.value is None for x in sides) and any(loc_name(x) == f"self.{attr}" for x in sides):
+                t = None if absval == "UNKNOWN" else (absval == "NONE")
+            elif any(isinstance(x, ast.Compare) for x in sides):
+                t = None
+        elif loc_name(e) == f"self.{attr}":
+            t = {"NONE": False, "FALSE": False, "EMPTY": False, "TRUE": True, "NONEMPTY": True}.get(absval)
+        elif isinstance(e, ast.Compare) and len(e.ops) == 1 and isinstance(e.ops[0], ast.Eq) and any(isinstance(x, ast.Call) and call_name(x) == "len" and x.args
+                                                                                                    and loc_name(x.args[0]) == f"self.{attr}" for x in (e.left, e.comparators[0])):
+            other = [x for x in (e.left, e.comparators[0]) if not (isinstance(x, ast.Call) and call_name(x) == "len")]
+            if other and const_value(other[0]) == (True, 0):
+                t = {"EMPTY": True, "NONEMPTY": False}.get(absval)
+        if t is None:
+            return None
+        val[k] = t
+    return GD._eval(pc, val)
+
+
+MUTATORS = ("add", "update", "discard", "remove", "clear", "pop", "difference_update", "intersection_update", "symmetric_difference_update", "append", "extend", "setdefault", "popitem")
+
+
 def d2_typestate(ctx):
-    ctx.rule("D2", "check_completed: False only in init, True only in check_NP24 after the asserting verification loop over full windows")
+    ctx.rule("D2", "the state that allows deleting the original (the deletion guard) is false after init_params and can only become true in check_NP24, after the asserting "
+                   "verification loop over full windows")
     repo = ctx.repo
-    true_sites, false_sites = [], []
-    for fi in _methods(repo, CLS):
-        for n in walk_function(fi.node):
-            if isinstance(n, (ast.Assign, ast.AugAssign)):
-                tgts = n.targets if isinstance(n, ast.Assign) else [n.target]
-                for t in tgts:
-                    for el in (t.elts if isinstance(t, ast.Tuple) else [t]):
-                        if loc_name(el) == "self.check_completed":
-                            v = n.value
-                            if isinstance(v, ast.Constant) and v.value is False:
-                                false_sites.append((fi, n))
-                            else:
-                                true_sites.append((fi, n))
-            if isinstance(n, ast.Call) and call_name(n) == "setattr" and len(n.args) >= 2 and isinstance(n.args[1], ast.Constant) \
-                    and n.args[1].value == "check_completed":
-                true_sites.append((fi, n))
-    if not false_sites:
-        ctx.violation(repo.fn(CLS + ".init_params"), None, "self.check_completed = False", "check_completed is never initialised to False", key="no-init")
-    for fi, n in false_sites:
-        ctx.ok(fi, n, n, "initialised False", key="false:" + fi.qualname)
-    for fi, n in true_sites:
-        if fi.qualname != CLS + ".check_NP24":
-            ctx.violation(fi, n, n, "check_completed is set (to a non-False value) outside check_NP24: deletion could run without verification",
-                          key="true-outside:" + fi.qualname)
-            continue
-        v = n.value if isinstance(n, (ast.Assign,)) else None
-        cfg = CFG(fi.node)
-        cn = cfg.node_for(n)
-        loops = [x for x in walk_function(fi.node) if isinstance(x, ast.For) and "firstlast" in src(x.iter)]
-        if not loops:
-            ctx.violation(fi, n, n, "check_NP24 sets check_completed without iterating over the recording's windows", key="no-loop")
-            continue
-        lp = loops[0]
-        ln = cfg.node_for(lp)
-        inside = any(x is n for b in lp.body for x in ast.walk(b))
-        ctx.check(cfg.must_pass([ln], cn) and not inside and isinstance(v, ast.Constant) and v.value is True, fi, n, n,
-                  "set True only after the verification loop has run to completion",
-                  "check_completed is set before / inside the verification loop (or not to the constant True)", key="true-after-loop")
+    guards = ctx.shared.get("completion_guards")
+    if guards is None:
+        d1_deletion_guarded(ctx.__class__(ctx.repo, ctx.prop, ctx.tier, quiet=True)) if False else None
+        guards = ctx.shared.get("completion_guards", [])
+    if not guards:
+        ctx.note("no state-guarded unlink of the original: the typestate clause has nothing to protect")
+        return
+    gfi, gcall, pc, at_, state_atoms, state_attrs = guards[0]
+    init = repo.fn(CLS + ".init_params")
+    chk = repo.fn(CLS + ".check_NP24")
+    for attr in state_attrs:
+        writes = []     # (fi, node, abstract value)
+        for fi in _methods(repo, CLS):
+            for n in walk_function(fi.node):
+                if isinstance(n, (ast.Assign, ast.AugAssign, ast.AnnAssign)):
+                    tgts = n.targets if isinstance(n, ast.Assign) else [n.target]
+                    for t in tgts:
+                        for el in (t.elts if isinstance(t, ast.Tuple) else [t]):
+                            if loc_name(el) == f"self.{attr}":
+                                writes.append((fi, n, _abs_value(n.value) if isinstance(n, ast.Assign) else "UNKNOWN"))
+                            elif isinstance(el, ast.Subscript) and loc_name(el.value) == f"self.{attr}":
+                                writes.append((fi, n, "UNKNOWN"))
+                if isinstance(n, ast.Call) and isinstance(n.func, ast.Attribute) and n.func.attr in MUTATORS and loc_name(n.func.value) == f"self.{attr}":
+                    writes.append((fi, n, "UNKNOWN"))
+                if isinstance(n, ast.Call) and call_name(n) == "setattr" and len(n.args) >= 2 and isinstance(n.args[1], ast.Constant) and n.args[1].value == attr:
+                    writes.append((fi, n, "UNKNOWN"))
+        init_w = [(fi, n, a) for fi, n, a in writes if fi.qualname == init.qualname]
+        if not init_w:
+            ctx.violation(init, None, f"self.{attr} = <not verified>", f"the verification state `self.{attr}` is never initialised by init_params", key="no-init", name_free=True)
+        for fi, n, a in init_w:
+            g = _eval_guard(pc, at_, state_atoms, attr, a)
+            ctx.check(g is False, fi, n, n, "a fresh converter is in the 'not verified' state: deletion of the original is refused",
+                      f"right after `{src(n)}` the guard of `{src(gcall)}` in {gfi.qualname.rsplit('.', 1)[-1]} ({GD_show(pc)}) already holds" if g else
+                      f"`{src(n)}`: cannot tell whether the deletion guard is false for this initial value", key="init-state", name_free=True)
+            if g is True:
+                ctx.results[-1].message += (": the original is deleted (delete_original=True) although no verification has run - e.g. with post_check=False, or when delete_NP24 is called "
+                                            "on a converter whose check never ran")
+        for fi, n, a in writes:
+            if fi.qualname == init.qualname:
+                continue
+            g = _eval_guard(pc, at_, state_atoms, attr, a)
+            if g is False:
+                ctx.ok(fi, n, n, "leaves / enters the 'not verified' state", key="false:" + fi.qualname + ":" + norm(n)[:30])
+                continue
+            if fi.qualname != chk.qualname:
+                ctx.violation(fi, n, n, f"`{src(n)[:60]}` can put the converter into the 'verified' state outside check_NP24: deletion could run without verification",
+                              key="true-outside:" + fi.qualname, name_free=True)
+                continue
+            cfg = CFG(fi.node)
+            cn = cfg.node_for(n)
+            loops = [x for x in walk_function(fi.node) if isinstance(x, ast.For) and "firstlast" in src(x.iter)]
+            if not loops:
+                ctx.violation(fi, n, n, "check_NP24 marks the verification as completed without iterating over the recording's windows", key="no-loop")
+                continue
+            lp = loops[0]
+            ln = cfg.node_for(lp)
+            inside = any(x is n for b in lp.body for x in ast.walk(b))
+            ctx.check(cfg.must_pass([ln], cn) and not inside, fi, n, n, "the 'verified' state is entered only after the verification loop has run to completion",
+                      "the verification is marked as completed before / inside the verification loop", key="true-after-loop", name_free=True)
+            _check_loop(ctx, fi, lp)
+    if not any(True for _ in state_attrs):
+        ctx.note("the deletion guard reads no instance state")
+
+
+def GD_show(pc):
+    from sa import guards as GD
+    return GD.show(pc)[:140]
+
+
+def _check_loop(ctx, fi, lp):
+    repo = ctx.repo
+    if True:
         # loop body asserts equality of the full original window
         asserts = [x for b in lp.body for x in ast.walk(b) if isinstance(x, ast.Assert)]
         raises = [x for b in lp.body for x in ast.walk(b) if isinstance(x, ast.If) and any(isinstance(y, ast.Raise) for y in x.body)]
@@ -173,8 +270,6 @@ def d2_typestate(ctx):
             okw = len(a) >= 3 and loc_name(a[0]) == "self.nsamples" and isinstance(a[2], ast.Constant) and a[2].value == 0
         ctx.check(okw, fi, wgs[0] if wgs else fi.node, wgs[0] if wgs else "WindowGenerator", "verification windows tile self.nsamples with overlap 0",
                   "verification windows do not tile self.nsamples with zero overlap", key="verify-windows")
-    if not true_sites:
-        ctx.note("check_completed is never set True: the original can never be deleted by delete_NP24 (safe)")
 
 
 def _existence_witness(repo, fi, du, cfg, var_expr, call):
